@@ -151,11 +151,8 @@ json_t *json_string(const char *value)
  * (-DVJ_MODEL_FREE restores a real free for units that can afford it.) */
 #define VJ_DEAD ((json_type)-1)
 #define VJ_LIVE(j) __CPROVER_assert((j) == NULL || (j)->type != VJ_DEAD, "jansson: value used after its last reference was dropped")
-/* called first thing by json_incref / json_decref (inserted into the generated header by bin/check) */
-void verif_json_live(const json_t *json)
-{
-	__CPROVER_assert(json == NULL || json->type != VJ_DEAD, "jansson: reference count of a value touched after its last reference was dropped");
-}
+/* (json_incref / json_decref call verif_json_live() first thing: both are inserted into the generated header by
+ * bin/check; the assertion there is "type != VJ_DEAD") */
 static void vj_release(vj_t *n)
 {
 	__CPROVER_assert(n->type != VJ_DEAD, "jansson: value released twice");
